@@ -104,7 +104,7 @@ def _sync(H, sh):
                 i['subscribed'] = True
             if o['kind'] == 'chResp':
                 for spec in H.recv_specs.values():
-                    if spec['ty'] == 'REQUEST_CHANNEL' and spec['sid'] == o['sid'] and spec.get('complete'):
+                    if spec.get('ty') == 'REQUEST_CHANNEL' and spec['sid'] == o['sid'] and spec.get('complete'):
                         i['peer_term'] = True
                 if o['sid'] in sh.chan_complete_sids:
                     i['peer_term'] = True
@@ -202,6 +202,7 @@ def choose_one(rng, H, sh, profile):
                                  'code': rng.choice([1, 2, 257, 513, 514, 515]), 'complete': rng.random() < 0.3, 'follows': rng.random() < 0.15,
                                  'respond': rng.random() < 0.3},
                                 rng.choice(['x', 'k', 'fp', 'ff', 'pb', 'ch11', 'ch00', 'ch10', 'ch01', 'fr.-']))))
+            w((7, lambda: raw_item(rng, sh, sids, tys)))
         lost_w = {'loss': 0.6, 'legal': 0.12, 'hostile': 0.1, 'cancel': 0.05, 'quiesce': 0.0}.get(profile, 0.1)
         w((lost_w, lambda: rng.choice([{'op': 'lost', 'mode': 'eof'}, {'op': 'lost', 'mode': 'error'}, {'op': 'close'}])))
     total = sum(x[0] for x in opts)
@@ -213,9 +214,42 @@ def choose_one(rng, H, sh, profile):
     return None
 
 
+def raw_item(rng, sh, sids, tys):
+    """one raw message for the receiver: a serialised frame, as is or damaged (truncated, IGNORE flag set and truncated, a flipped bit,
+    unknown frame type, random bytes, empty)"""
+    from harness.engine import build_frame
+    spec = {'ty': rng.choice(tys), 'sid': rng.choice(sids + [sh.peer_next_id]), 'data': sh.fresh(rng.choice([0, 1, 2])), 'n': rng.choice([0, 1, 3]),
+            'code': rng.choice([1, 2, 257, 513, 514, 515]), 'complete': rng.random() < 0.3, 'follows': rng.random() < 0.1, 'respond': rng.random() < 0.3}
+    try:
+        b = bytearray(build_frame(spec).serialize())
+    except Exception:
+        b = bytearray(b'\x00\x00\x00\x01\x28\x20x')
+    mode = rng.choice(['asis', 'asis', 'trunc', 'trunc', 'ign-trunc', 'ign-trunc', 'ign', 'flip', 'flip', 'random', 'unknown', 'type0', 'empty'])
+    if mode in ('trunc', 'ign-trunc') and len(b) > 1:
+        if mode == 'ign-trunc' and len(b) > 4:
+            b[4] |= 0x02
+        b = b[:rng.randint(0, len(b) - 1)]
+    elif mode == 'ign' and len(b) > 4:
+        b[4] |= 0x02
+    elif mode == 'flip' and b:
+        i = rng.randrange(len(b))
+        b[i] ^= 1 << rng.randrange(8)
+    elif mode == 'random':
+        b = bytearray(rng.getrandbits(8) for _ in range(rng.choice([1, 5, 6, 7, 12, 30])))
+    elif mode == 'unknown' and len(b) > 4:
+        b[4] = (rng.choice([15, 16, 31, 62, 63]) << 2) | (b[4] & 3)
+    elif mode == 'type0' and len(b) > 4:
+        b[4] &= 3
+    elif mode == 'empty':
+        b = bytearray()
+    return {'op': 'raw', 'hex': bytes(b).hex(), 'beh': rng.choice(['x', 'k', 'fp', 'ff', 'pb', 'ch11', 'ch00', 'ch10', 'ch01', 'fr.-'])}
+
+
 def note(sh, H, s):
     """update what peer/app have done after choosing a stimulus"""
     op = s['op']
+    if op == 'raw':
+        return
     if op == 'recv':
         f = s['frame']
         ty, sid = f['ty'], f['sid']
